@@ -113,6 +113,17 @@ CLAIMS = {
         design="3 (C16)",
         note="Trusted: TLC, the recording callables and projection in props/c16.py. Random subsets/texts, not exhaustive.",
         technique="TLA+ loader spec handler list vs declarative post-order list checked by TLC; call sequences replayed on the code"),
+    "C15": dict(
+        text="Random texts of the schema family (conforming, damaged, with definitions) are rewritten by 1..5 of the listed layout "
+             "changes (indentation and trailing white space incl. tabs and Unicode spaces, blank/comment lines, letter case of "
+             "types, names, keys, defined names and references, <t/> vs <t></t>, reordering key lines); TLC checks on the "
+             "composed specification ZLinesFn . ZLoadFn, by self-composition, that original and rewritten text have the same "
+             "outcome (wildcard maps compared as mappings), and both are executed on the real code and compared with each "
+             "other and with the specification.",
+        design="3 (C15)",
+        note="Trusted: TLC, the rewrite operators in props/c15.py. Random corpus over the 13 interaction schemas; the shipped "
+             "logger / basic-mapping components are exercised by C20 and not yet by this check.",
+        technique="TLA+ line grammar + loader spec, self-composition (original vs rewritten) checked by TLC; both replayed on the code"),
 }
 
 NOT_YET = "check not built yet (construction order in DESIGN.md section 8)"
